@@ -83,10 +83,10 @@ Lemma lex_next_unfold l :
     | "" => fin TEnd "" start
     | String c r =>
       if (byte_of c =? 34)%N then
-        let '(t, rest, pos) := lex_str (S (String.length r)) r (S start) "" start (llen l) in fin t rest pos
+        let '(t, rest, pos) := lex_str false (S (String.length r)) r (S start) "" start (llen l) in fin t rest pos
       else if starts_ldq (lrest l) then
         let r3 := str_drop 3 (lrest l) in
-        let '(t, rest, pos) := lex_str (S (String.length r3)) r3 (start + 3) "" start (llen l) in fin t rest pos
+        let '(t, rest, pos) := lex_str true (S (String.length r3)) r3 (start + 3) "" start (llen l) in fin t rest pos
       else if (byte_of c =? 124)%N then
         let '(t, rest, pos) := lex_bits r (S start) bvb_empty (llen l) in fin t rest pos
       else lex_word l c
@@ -295,10 +295,10 @@ Proof.
     - intros w Ew. exfalso. exact (T2 w Ew). }
   destruct (byte_of c =? 34)%N eqn:Eq.
   { (* straight quote *)
-    destruct (lex_str (S (String.length r)) r (S (lpos l)) "" (lpos l) (llen l)) as [[t0 rest] pos] eqn:Es.
-    pose proof (lex_str_kind (S (String.length r)) r (S (lpos l)) "" (lpos l) (llen l)) as Hk.
+    destruct (lex_str false (S (String.length r)) r (S (lpos l)) "" (lpos l) (llen l)) as [[t0 rest] pos] eqn:Es.
+    pose proof (lex_str_kind false (S (String.length r)) r (S (lpos l)) "" (lpos l) (llen l)) as Hk.
     rewrite Es in Hk. cbn [fst] in Hk.
-    destruct (lex_str_spec _ _ _ _ _ _ _ _ _ Es) as [S1 S2].
+    destruct (lex_str_spec _ _ _ _ _ _ _ _ _ _ Es) as [S1 S2].
     assert (A : advx (String c r) (lpos l) rest pos) by (eapply advx_cons; [exact S1|reflexivity]).
     apply Lit; [exact Hk| |apply advx_adv; exact A|].
     - destruct S1 as (j & _ & J & _). lia.
@@ -306,10 +306,10 @@ Proof.
   destruct (starts_ldq (String c r)) eqn:El.
   { (* curly quote *)
     set (r3 := str_drop 3 (String c r)) in *.
-    destruct (lex_str (S (String.length r3)) r3 (lpos l + 3) "" (lpos l) (llen l)) as [[t0 rest] pos] eqn:Es.
-    pose proof (lex_str_kind (S (String.length r3)) r3 (lpos l + 3) "" (lpos l) (llen l)) as Hk.
+    destruct (lex_str true (S (String.length r3)) r3 (lpos l + 3) "" (lpos l) (llen l)) as [[t0 rest] pos] eqn:Es.
+    pose proof (lex_str_kind true (S (String.length r3)) r3 (lpos l + 3) "" (lpos l) (llen l)) as Hk.
     rewrite Es in Hk. cbn [fst] in Hk.
-    destruct (lex_str_spec _ _ _ _ _ _ _ _ _ Es) as [S1 S2].
+    destruct (lex_str_spec _ _ _ _ _ _ _ _ _ _ Es) as [S1 S2].
     assert (A : advx (String c r) (lpos l) rest pos).
     { eapply advx_trans; [|exact S1]. apply advx_drop. apply starts_ldq_len. exact El. }
     apply Lit; [exact Hk| |apply advx_adv; exact A|].
